@@ -35,8 +35,8 @@ def plan(tier, seed):
             for s in (0, 1):
                 for rep in range(3):
                     specs.append({'k': 'o', 'v': v, 'len': n, 'se': s, 'rep': rep})
-    maxp = 6 if tier == 'quick' else 16
-    maxpair = 4 if tier == 'quick' else 8
+    maxp = 8 if tier == 'quick' else 32
+    maxpair = 4 if tier == 'quick' else 12
     for pages in range(1, maxp + 1):
         for op in ('erase', 'setaddr', 'write'):
             for n in range(pages):
@@ -50,9 +50,9 @@ def plan(tier, seed):
                 if a != b:
                     for lenient in (0, 1):
                         specs.append({'k': 'e2', 'p': pages, 'a': list(a), 'b': list(b), 'l': lenient})
-    nrand = 4000 if tier == 'quick' else 300000
+    nrand = 12000 if tier == 'quick' else 3000000
     specs.extend({'k': 'r'} for _ in range(nrand))
-    nover = 300 if tier == 'quick' else 20000
+    nover = 1500 if tier == 'quick' else 200000
     specs.extend({'k': 'ro'} for _ in range(nover))
     return specs
 
